@@ -130,6 +130,9 @@ class RegistryServer(object):
             if magic != "RPYC":
                 self.logger.warn("invalid magic: %r", magic)
                 continue
+            if not isinstance(cmd, str):
+                self.logger.warn("invalid command: %r", cmd)
+                continue
             cmdfunc = getattr(self, "cmd_%s" % (cmd.lower(),), None)
             if not cmdfunc:
                 self.logger.warn("unknown command: %r", cmd)
